@@ -188,6 +188,12 @@ structure Cfg where
   hdrNs : Nat := ns
   /-- the original `.bin` ends with a partial frame (trailing bytes after `ns` complete frames); those bytes are not samples -/
   trailing : Bool := false
+  /-- `init_params(nshank=[…])` ("you would only want to override this for testing purposes") selects a PROPER subset of the
+  probe's shanks: `n` then counts the selected shanks (folders `shanks 0 … n-1` are the selected ones, in the order given),
+  every loop of the converter runs over them only, and the buffer `check_NP24` reassembles (`chunk = np.zeros_like(expected)`,
+  filled shank by shank) lacks the channels of the other shanks, so its `assert` fails in the first window (NP2.4 only:
+  `_prepare_files_NP21` does not consult `self.nshank`) -/
+  partialSel : Bool := false
 deriving DecidableEq, Repr
 
 inductive Err
@@ -288,13 +294,16 @@ def compress24 (cfg : Cfg) (call : Call) (q : Nat) (s : Disk) : Disk :=
     { ap := compressFileSet call.overwrite (apData cfg call i) (2 * i) q sh.ap,
       lf := compressFileSet call.overwrite (.good cfg.c) (2 * i + 1) q sh.lf }) s
 
-/-- `check_NP24` finds a difference: some shank's ap file is not bit-identical to the original's columns. -/
+/-- `check_NP24` finds a difference: the selection leaves channels of the original uncovered, or some shank's ap file is not
+bit-identical to the original's columns. -/
 def splitDiffers (cfg : Cfg) (call : Call) : Bool :=
-  (List.range cfg.n).any fun i => altered cfg call i
+  cfg.partialSel || (List.range cfg.n).any fun i => altered cfg call i
 
 /-- Number of `Reader.read` calls `check_NP24` makes before it stops: `1 + n` per verification window, up to and
-including the window that holds the altered sample (its `assert` ends the loop), else all windows. -/
+including the window that holds the altered sample (its `assert` ends the loop; the first window for a partial shank
+selection), else all windows. -/
 def verifyReads (cfg : Cfg) (call : Call) : Nat :=
+  if cfg.partialSel then min (1 + cfg.n) (nverif cfg * (1 + cfg.n)) else
   match call.corrupt with
   | some x => if splitDiffers cfg call then min ((x.kv + 1) * (1 + cfg.n)) (nverif cfg * (1 + cfg.n)) else nverif cfg * (1 + cfg.n)
   | none => nverif cfg * (1 + cfg.n)
